@@ -7,6 +7,7 @@ import (
 	"io"
 	"math"
 	"reflect"
+	"sync"
 	"unsafe"
 
 	"github.com/cloudwego/gopkg/bufiox"
@@ -65,6 +66,21 @@ type c19FullReadable struct {
 }
 
 func (o *c19FullReadable) ReadableLen() int { return o.n }
+
+// an object whose readable length DROPS between two looks (a buffer drained by its consumer):
+// n at the first call after the harness armed it, 0 afterwards
+type c19Dropping struct {
+	c19RW
+	n, calls int
+}
+
+func (o *c19Dropping) ReadableLen() int {
+	o.calls++
+	if o.calls == 1 {
+		return o.n
+	}
+	return 0
+}
 
 // ---- registry callbacks ----
 var (
@@ -268,6 +284,15 @@ func c19Default(cls int, n int64) V {
 	case 2:
 		o := &c19RW{}
 		rw, under = o, o
+	case 7:
+		o := &c19Dropping{n: int(n)}
+		rw, under = o, &o.c19RW
+		tr := apache.NewDefaultTransport(rw)
+		rem := tr.RemainingBytes() // one look at the length: n when positive, else unknown
+		o.calls = 0
+		rem2 := tr.RemainingBytes()
+		isBT := reflect.TypeOf(tr).String() == "*apache.bufferTransport"
+		return Ls(U64(rem), Bo(isBT), Bo(rem == rem2), I(1))
 	case 5:
 		o := &c19FullReadable{n: int(n)}
 		rw, under = o, &o.c19RW
@@ -413,7 +438,8 @@ func init() {
 			}
 			// ---- 3. default transport ----
 			ns := []int64{0, 1, -1, 2, 7, 255, 256, 4096, math.MaxInt32, math.MaxInt32 + 1, math.MinInt32, 1 << 32, 1 << 62, math.MaxInt64, math.MaxInt64 - 1, math.MinInt64, math.MinInt64 + 1, -2}
-			for _, cls := range []int{0, 1, 2, 5, 6} {
+			g.Add("reg-concurrent", Ls(I(3), I(g.Scale(400, 20000))))
+			for _, cls := range []int{0, 1, 2, 5, 6, 7} {
 				for _, v := range ns {
 					g.Add("default", Ls(I(1), I(cls), I64(v)))
 				}
@@ -474,8 +500,41 @@ func init() {
 					}
 				}
 				return Ls(outs...)
+			case 3:
+				c19ResetRegistry()
+				defer c19ResetRegistry()
+				return Ls(Bo(c19ConcurrentRegister(AsInt(a[1]))))
 			}
 			panic("c19: bad case")
 		},
 	})
+}
+
+// the three hooks are three independent registrations: registering DIFFERENT hooks from different
+// goroutines at the same time is legal, and each registration that has returned must be in effect
+func c19ConcurrentRegister(rounds int) bool {
+	ok := true
+	for r := 0; r < rounds && ok; r++ {
+		c19ResetRegistry()
+		var wg sync.WaitGroup
+		start := make(chan struct{})
+		for slot := 0; slot < 3; slot++ {
+			wg.Add(1)
+			go func(slot int) {
+				defer wg.Done()
+				<-start
+				c19Register(slot, (r+slot)%8)
+			}(slot)
+		}
+		close(start)
+		wg.Wait()
+		for slot := 0; slot < 3; slot++ {
+			c19Last = c19Call{}
+			err, _ := c19Dispatch(slot, c19Args[r%4])
+			if !c19Last.called || c19Last.fid != (r+slot)%8 || err != c19Last.ret {
+				ok = false
+			}
+		}
+	}
+	return ok
 }
